@@ -323,6 +323,17 @@ func TestCheck(t *testing.T) {
 		c.Register("oned_roundtrip", check)
 		c.Register("oned_reject", checkReject)
 		c.Register("oned_forced", checkForced)
+		c.Register("oned_overlong", func(raw json.RawMessage) error {
+			// longer than the 80 characters the property names: refused, or read back exactly
+			var cs Case
+			if err := json.Unmarshal(raw, &cs); err != nil {
+				return fmt.Errorf("hx: %v", err)
+			}
+			if _, err := encode(cs); err != nil {
+				return nil
+			}
+			return check(raw)
+		})
 		c.Register("oned_history", checkHistory)
 		c.RegisterMatcher("upce-trailing-quiet-zone", func(raw json.RawMessage, err error) bool {
 			var cs Case
@@ -549,6 +560,47 @@ func TestCheck(t *testing.T) {
 				}
 			}
 			c.SetExhaustive("itf_all_lengths", true)
+		}
+
+		// every content length 1..80 of the variable-length symbologies is accepted and reads back,
+		// 81.. is refused (or, where the property names no limit, reads back)
+		{
+			idx := 0
+			alpha39 := "ABCDEFGHIJKLMNOPQRSTUVWXYZ0123456789-. $/+%"
+			for _, sym := range []string{"CODE39", "CODE93", "CODE128", "CODE128digits", "CODE128ctl"} {
+				for n := 1; n <= 84; n++ {
+					idx++
+					if !c.Mine(idx) {
+						continue
+					}
+					b := make([]byte, n)
+					for i := range b {
+						switch sym {
+						case "CODE128digits":
+							b[i] = byte('0' + (i*7+n)%10)
+						case "CODE128ctl":
+							b[i] = byte((i*11 + n) % 96) // set A repertoire incl. control characters
+						case "CODE128":
+							b[i] = byte(32 + (i*13+n)%95)
+						default:
+							b[i] = alpha39[(i*5+n)%len(alpha39)]
+						}
+					}
+					name := sym
+					if strings.HasPrefix(sym, "CODE128") {
+						name = "CODE128"
+					}
+					cs := Case{Sym: name, Content: string(b), Canonical: string(b), Margin: -1, ReqH: 3}
+					kind := "oned_roundtrip"
+					cl := sym + ";within_limit"
+					if n > 80 {
+						kind, cl = "oned_overlong", sym+";over_limit"
+					}
+					c.Note("length_limits", cl, n >= 70, hx.HashS("len", sym, string(b)), func() any { return cs })
+					c.Enum("length_limits", kind, cs, nil)
+				}
+			}
+			c.SetExhaustive("length_limits", true)
 		}
 
 		// malformed contents must be rejected
